@@ -26,6 +26,7 @@ struct Cfg {
                //  4..7 multiway_merge_base<Stable,Sentinels> called directly)
     int alg;   // 0 default argument, 1 LOSER_TREE, 2 LOSER_TREE_COMBINED, 3 LOSER_TREE_SENTINEL, 4 BUBBLE
     bool desc; // comparator direction (greater)
+    bool scale = false; // target merge_scale: shape from gen_scale() instead of gen_base()
 };
 inline bool entry_stable(int e) { return e & 1; }
 inline bool entry_sentinels(int e) { return (e & 2) != 0; }
@@ -43,9 +44,7 @@ void run_rec40_s(pbt::Source& src, const Cfg& cfg);
 //! 8 bytes -> copy-based loser trees (sizeof <= 2*sizeof(size_t))
 struct Rec8 {
     int32_t key;
-    uint16_t pos;
-    uint8_t seq;
-    uint8_t tag;
+    uint32_t sp; // seq (12 bits) << 20 | pos (20 bits)
 };
 static_assert(sizeof(Rec8) == 8, "Rec8 must be 8 bytes");
 //! 40 bytes -> pointer-based loser trees
@@ -80,15 +79,13 @@ struct Tr<Rec8> {
     static Rec8 make(int key, int seq, int pos) {
         Rec8 r;
         r.key = key;
-        r.pos = (uint16_t)pos;
-        r.seq = (uint8_t)seq;
-        r.tag = (uint8_t)(seq * 31 + pos * 7 + 1);
+        r.sp = ((uint32_t)seq << 20) | ((uint32_t)pos & 0xFFFFFu);
         return r;
     }
     static int key(const Rec8& e) { return e.key; }
-    static int seq(const Rec8& e) { return e.seq; }
-    static int pos(const Rec8& e) { return e.pos; }
-    static bool same(const Rec8& a, const Rec8& b) { return a.key == b.key && a.pos == b.pos && a.seq == b.seq && a.tag == b.tag; }
+    static int seq(const Rec8& e) { return (int)(e.sp >> 20); }
+    static int pos(const Rec8& e) { return (int)(e.sp & 0xFFFFFu); }
+    static bool same(const Rec8& a, const Rec8& b) { return a.key == b.key && a.sp == b.sp; }
 };
 template <>
 struct Tr<Rec40> {
@@ -112,9 +109,13 @@ struct Tr<Rec40> {
 
 //! stateful comparator by key only (direction is run-time state: a merge that
 //! default-constructs its comparator instead of using the one passed is caught)
-//! comparison budget: a merge that stops making progress (possible in the bubble merge, whose loops
-//! have no other exit) ends the case as *inconclusive* (DESIGN §3.5: step bounds are never violations)
-//! instead of blocking a worker until the wall-clock case timeout
+//! comparison budget: a merge that stops making progress (possible in the bubble merge, whose loops have no other
+//! exit) would otherwise block a worker until the wall-clock case timeout and end as a hang (= inconclusive). The
+//! budget is a deterministic, replayable work bound far above what any correct merge needs (the most expensive
+//! legitimate algorithm, the bubble merge, needs <= ~2 comparisons per queue entry and emitted element plus k^2 for
+//! the set-up, i.e. < 2*(total+k+1)*(k+1); the budget is 64*(total+k+1)*(k+1)+10000). Exceeding it means the call
+//! would not return "the end of the written range" in any reasonable sense: labelled failure C05/runaway-comparisons
+//! (work/STRENGTHEN.txt: non-termination is turned into a labelled failure by a sound, generous work bound).
 struct StepBound {};
 inline long g_cmp_calls = 0;
 inline long g_cmp_budget = 0;
@@ -213,25 +214,58 @@ inline int draw_k(pbt::Source& src) {
 
 // ---------------------------------------------------------------- one case
 
-template <class E, bool RawPtr, bool Stable, class Cmp>
-void run_case(pbt::Source& src, const Cfg& cfg, Cmp cmp) {
-    using T = Tr<E>;
-    using It = typename ItKind<E, RawPtr>::It;
-    const bool stable = Stable, sent = entry_sentinels(cfg.entry), desc = cfg.desc;
-    auto kless = [desc](int a, int b) { return desc ? b < a : a < b; };
+//! what a generator produces: the tuple of sorted key sequences, the merge length, and how to place sentinels
+struct Shape {
+    int k = 0;
+    std::vector<int> n;                 // sequence sizes
+    std::vector<std::vector<int>> keys; // sorted by the comparator
+    std::ptrdiff_t total = 0, length = 0;
+    std::ptrdiff_t ub_unstable = -1, ub_stable = -1; // unguarded-phase boundary (what prepare_unguarded computes); -1: an empty sequence
+    int sentvary = 0;
+    bool omit_cmp = false;
+    bool dominant = false;
+    int nvals = 1;
+    // scale target only (labels)
+    int prof = -1, keymode = -1;
+};
 
-    // ---- shape
-    const int k = draw_k(src);
+//! unguarded-phase boundary (what prepare_unguarded computes), for labels and the length bias
+inline void compute_boundary(Shape& sh, bool desc) {
+    auto kless = [desc](int a, int b) { return desc ? b < a : a < b; };
+    const int k = sh.k;
+    sh.ub_unstable = sh.ub_stable = -1;
+    bool has_empty = false;
+    for (int i = 0; i < k; ++i) has_empty = has_empty || sh.n[i] == 0;
+    if (k > 0 && !has_empty) {
+        int m = sh.keys[0].back(), mseq = 0;
+        for (int i = 1; i < k; ++i)
+            if (kless(sh.keys[i].back(), m)) m = sh.keys[i].back(), mseq = i;
+        sh.ub_unstable = sh.ub_stable = 0;
+        for (int i = 0; i < k; ++i)
+            for (int x : sh.keys[i]) {
+                if (kless(x, m)) ++sh.ub_unstable, ++sh.ub_stable;
+                else if (!kless(m, x) && i <= mseq) ++sh.ub_stable;
+            }
+    }
+}
+
+//! target `merge`: small shapes, every detail drawn from the choice bytes (the draw order is frozen: stored
+//! witnesses and the fuzz corpus depend on it)
+inline void gen_base(pbt::Source& src, const Cfg& cfg, Shape& sh) {
+    const bool desc = cfg.desc;
+    auto kless = [desc](int a, int b) { return desc ? b < a : a < b; };
+    const int k = sh.k = draw_k(src);
     const int vsel = (int)src.range(0, 9); // 0..7 -> 1..8 distinct values (heavy ties); 8,9 -> wide
-    const int nvals = vsel < 8 ? vsel + 1 : 1001;
+    const int nvals = sh.nvals = vsel < 8 ? vsel + 1 : 1001;
     const size_t lenmode = src.weighted({6, 5, 4, 1, 2, 2, 6}); // full, total-uniform, uniform, 0, 1, total-1, unguarded boundary
-    const int sentvary = (int)src.range(0, 2);
-    const bool dominant = src.chance(32);
-    const bool omit_cmp = src.boolean();
+    sh.sentvary = (int)src.range(0, 2);
+    sh.dominant = src.chance(32);
+    sh.omit_cmp = src.boolean();
     // empty sequences: none (so that the unguarded phase of the combined algorithms is reached) / few / many
     const size_t emptymode = src.weighted({5, 3, 2});
     const unsigned emptyp = emptymode == 0 ? 0 : emptymode == 1 ? 12 : 72;
-    std::vector<int> n(k, 0);
+    std::vector<int>& n = sh.n;
+    n.assign(k, 0);
     for (int i = 0; i < k; ++i) {
         unsigned t = src.u8();
         if (t < emptyp) n[i] = 0;
@@ -240,43 +274,22 @@ void run_case(pbt::Source& src, const Cfg& cfg, Cmp cmp) {
             if (emptymode == 0 && n[i] == 0) n[i] = 1;
         }
     }
-    if (dominant && k > 0) {
+    if (sh.dominant && k > 0) {
         size_t d = src.index((size_t)k);
         n[d] = (int)src.range(0, 300);
     }
     std::ptrdiff_t total = 0;
     for (int i = 0; i < k; ++i) total += n[i];
+    sh.total = total;
 
     // ---- keys: drawn, then sorted by the comparator
-    std::vector<std::vector<int>> keys(k);
-    int kmax = 0, kmin = 0;
-    bool any = false;
+    sh.keys.assign(k, std::vector<int>());
     for (int i = 0; i < k; ++i) {
-        keys[i].resize(n[i]);
-        for (int j = 0; j < n[i]; ++j) keys[i][j] = (int)src.range(0, nvals - 1);
-        std::sort(keys[i].begin(), keys[i].end(), kless);
-        for (int x : keys[i]) {
-            if (!any || x > kmax) kmax = x;
-            if (!any || x < kmin) kmin = x;
-            any = true;
-        }
+        sh.keys[i].resize(n[i]);
+        for (int j = 0; j < n[i]; ++j) sh.keys[i][j] = (int)src.range(0, nvals - 1);
+        std::sort(sh.keys[i].begin(), sh.keys[i].end(), kless);
     }
-
-    // ---- unguarded-phase boundary (what prepare_unguarded computes), for labels and the length bias
-    std::ptrdiff_t ub_unstable = -1, ub_stable = -1;
-    bool has_empty = false;
-    for (int i = 0; i < k; ++i) has_empty = has_empty || n[i] == 0;
-    if (k > 0 && !has_empty) {
-        int m = keys[0].back(), mseq = 0;
-        for (int i = 1; i < k; ++i)
-            if (kless(keys[i].back(), m)) m = keys[i].back(), mseq = i;
-        ub_unstable = ub_stable = 0;
-        for (int i = 0; i < k; ++i)
-            for (int x : keys[i]) {
-                if (kless(x, m)) ++ub_unstable, ++ub_stable;
-                else if (!kless(m, x) && i <= mseq) ++ub_stable;
-            }
-    }
+    compute_boundary(sh, desc);
 
     // ---- length
     std::ptrdiff_t length = total;
@@ -288,12 +301,218 @@ void run_case(pbt::Source& src, const Cfg& cfg, Cmp cmp) {
     case 4: length = std::min<std::ptrdiff_t>(1, total); break;
     case 5: length = std::max<std::ptrdiff_t>(0, total - 1); break;
     default: {
-        std::ptrdiff_t base = src.boolean() ? ub_stable : ub_unstable;
+        std::ptrdiff_t base = src.boolean() ? sh.ub_stable : sh.ub_unstable;
         std::ptrdiff_t l = base + (std::ptrdiff_t)src.range(0, 2) - 1;
-        if (ub_unstable < 0 || l < 0 || l > total) length = total - (std::ptrdiff_t)src.range(0, total);
+        if (sh.ub_unstable < 0 || l < 0 || l > total) length = total - (std::ptrdiff_t)src.range(0, total);
         else length = l;
         break;
     }
+    }
+    sh.length = length;
+}
+
+//! local PRNG for the scale shapes (splitmix64): a case stays a pure function of its choice bytes
+struct Rng {
+    uint64_t s;
+    uint64_t next() {
+        uint64_t z = (s += 0x9E3779B97F4A7C15ull);
+        z = (z ^ (z >> 30)) * 0xBF58476D1CE4E5B9ull;
+        z = (z ^ (z >> 27)) * 0x94D049BB133111EBull;
+        return z ^ (z >> 31);
+    }
+    //! uniform in 0..n-1 (0 for n = 0)
+    long below(long n) { return n <= 0 ? 0 : (long)(next() % (uint64_t)n); }
+};
+
+static const char* const PROF_LABEL[5] = {"prof=uniform", "prof=equal_len", "prof=few_long", "prof=skewed", "prof=tiny_seqs"};
+static const char* const KEYMODE_LABEL[7] = {"keys=1..8_values",     "keys=all_equal",         "keys=moderate", "keys=wide",
+                                             "keys=disjoint_by_seq", "keys=disjoint_reversed", "keys=identical_ramps"};
+
+//! target `merge_scale`: SCALE classes. The statement quantifies over any number of sequences of any size; gen_base
+//! stays at k <= 40 and sequences <= 30 (one <= 300). Here the selectors (classes and the exact k) come from the
+//! choice bytes and the bulk (sizes, keys) is expanded from a drawn 32-bit seed:
+//!   k        4,3,2,5..8,1 (with LONG sequences) | 2^j-1, 2^j, 2^j+1 for j = 5..8 | 9..40 | 41..300 | 511..513 |
+//!            1023..1025 | 301..1100
+//!   total    <= 1 500 (most) | <= 6 000 | <= 25 000 | <= 100 000 (rare); bubble merge: total * k <= 2e7
+//!   sizes    uniform 1..2*avg | all equal (often 2^j-1, 2^j, 2^j+1) | 1..4 long sequences holding ~80 % | skewed
+//!            (cubic) | tiny 1..4; then none / few / a third of the sequences emptied
+//!   keys     1..8 values | all equal | ~total/8 values | wide | disjoint ranges in sequence order (the unguarded phase
+//!            ends with sequence 0) | disjoint in reverse order | identical ramps 0,1,2,.. in every sequence
+//!   length   total | near total | uniform | 0 | 1 | total-1 | unguarded-phase boundary of the stable or the unstable
+//!            routine -1/+0/+1 (weight 9 of 24)
+//! All inside the documented preconditions (sorted by the comparator, length <= total); same oracle as `merge`.
+inline void gen_scale(pbt::Source& src, const Cfg& cfg, Shape& sh) {
+    const bool desc = cfg.desc;
+    auto kless = [desc](int a, int b) { return desc ? b < a : a < b; };
+    // ---- seed first, then the selectors. A selector whose byte is present is decoded from it (zero = simplest: k = 4,
+    // smallest budget, uniform sizes, few key values, full length); once the bytes are used up the remaining selectors
+    // are taken from the seeded PRNG, so that short byte strings do not all collapse onto the simplest class.
+    Rng rng{(src.bits(4) * 0x2545F4914F6CDD1Dull + 0x1234567ull) ^ ((uint64_t)(cfg.entry * 10 + cfg.alg * 2 + cfg.desc) << 40) ^ ((uint64_t)src.size() << 52)};
+    auto weighted = [&](std::initializer_list<unsigned> w) -> size_t {
+        if (!src.exhausted()) return src.weighted(w);
+        unsigned tot = 0;
+        for (unsigned x : w) tot += x;
+        unsigned r = (unsigned)rng.below((long)tot);
+        size_t i = 0;
+        for (unsigned x : w) {
+            if (r < x) return i;
+            r -= x;
+            ++i;
+        }
+        return w.size() - 1;
+    };
+    auto range = [&](int lo, int hi) -> int { return !src.exhausted() ? (int)src.range(lo, hi) : lo + (int)rng.below(hi - lo + 1); };
+    int k;
+    switch (weighted({5, 5, 4, 4, 2, 1, 2})) {
+    case 0: {
+        static const int K[8] = {4, 3, 2, 5, 6, 8, 7, 1};
+        k = K[range(0, 7)];
+        break;
+    }
+    case 1: k = (1 << range(5, 8)) + range(0, 2) - 1; break; // 31,32,33 .. 255,256,257
+    case 2: k = range(9, 40); break;
+    case 3: k = range(41, 300); break;
+    case 4: k = 511 + range(0, 2); break;
+    case 5: k = 1023 + range(0, 2); break;
+    default: k = range(301, 1100); break;
+    }
+    static const long BUDGET[4] = {1500, 6000, 25000, 100000};
+    const long budget = BUDGET[weighted({16, 5, 2, 1})];
+    int prof = (int)weighted({4, 3, 3, 3, 3});
+    const int keymode = (int)weighted({5, 2, 3, 3, 2, 2, 3});
+    const size_t lenmode = weighted({5, 3, 3, 1, 1, 2, 9});
+    const size_t emptymode = weighted({6, 2, 2});
+    const int lensel = range(0, 5);
+    sh.sentvary = range(0, 2);
+    sh.omit_cmp = range(0, 1) != 0;
+
+    sh.k = k;
+    // ---- sizes
+    long T = budget / 4 + rng.below(3 * budget / 4 + 1);
+    const int eff_alg = cfg.alg == 0 ? 2 : (cfg.alg == 3 && !entry_sentinels(cfg.entry)) ? 2 : cfg.alg;
+    if (eff_alg == 4 && k >= 5) T = std::min(T, 20000000L / k); // the bubble merge is O(k) per element
+    if (T < k) T = k;
+    const long avg = std::max(1L, T / k);
+    if (prof == 4 && k <= 12) prof = 0; // tiny sequences with small k: that is target `merge`
+    std::vector<int>& n = sh.n;
+    n.assign(k, 1);
+    switch (prof) {
+    case 0: // uniform 1..2*avg
+        for (int i = 0; i < k; ++i) n[i] = 1 + (int)rng.below(2 * avg);
+        break;
+    case 1: { // all the same size; for sizes >= 8 mostly next to a power of two
+        long L = avg;
+        if (L >= 8 && rng.below(4) != 0) {
+            long p = 8;
+            while (2 * p <= L) p *= 2;
+            L = p + rng.below(3) - 1;
+        }
+        for (int i = 0; i < k; ++i) n[i] = (int)L;
+        break;
+    }
+    case 2: { // 1..4 long sequences with ~80 % of the elements, the others short
+        const int m = 1 + (int)rng.below(std::min(4, k));
+        const long rest = std::max(1L, (T / 5) / k);
+        for (int i = 0; i < k; ++i) n[i] = 1 + (int)rng.below(2 * rest);
+        for (int j = 0; j < m; ++j) n[(size_t)rng.below(k)] = (int)std::max(1L, (4 * T / 5) / m - rng.below(3));
+        break;
+    }
+    case 3: // skewed: many small, a few large (4*avg*u^3, mean = avg)
+        for (int i = 0; i < k; ++i) {
+            double u = (double)rng.below(1000001) / 1e6;
+            n[i] = 1 + (int)(4.0 * (double)avg * u * u * u);
+        }
+        break;
+    default: // tiny 1..4
+        for (int i = 0; i < k; ++i) n[i] = 1 + (int)rng.below(4);
+        break;
+    }
+    if (emptymode > 0) {
+        const long one_in = emptymode == 1 ? 20 : 3;
+        for (int i = 0; i < k; ++i)
+            if (rng.below(one_in) == 0) n[i] = 0;
+        if (emptymode == 1 && k > 0 && rng.below(2)) n[(size_t)rng.below(k)] = 0; // few: make one more likely for small k
+    }
+    std::ptrdiff_t total = 0;
+    for (int i = 0; i < k; ++i) total += n[i];
+    sh.total = total;
+
+    // ---- keys (non-negative, < 2^30), then sorted by the comparator
+    sh.keys.assign(k, std::vector<int>());
+    const long nv = keymode == 0 ? 1 + rng.below(8) : keymode == 2 ? std::max<long>(2, total / 8) : 1000001;
+    const long W = 1 + rng.below(keymode >= 4 ? 600 : 1); // width of a disjoint range (neighbours share the boundary value)
+    sh.nvals = keymode == 0 ? (int)nv : keymode == 1 ? 1 : 1001;
+    for (int i = 0; i < k; ++i) {
+        std::vector<int>& v = sh.keys[i];
+        v.resize(n[i]);
+        // rank of sequence i in comparator order for the disjoint modes
+        const long r = keymode == 4 ? i : k - 1 - i;
+        const long rr = desc ? k - 1 - r : r;
+        for (int j = 0; j < n[i]; ++j) {
+            switch (keymode) {
+            case 1: v[j] = 7; break;
+            case 4:
+            case 5: v[j] = (int)(rr * W + rng.below(W + 1)); break;
+            case 6: v[j] = desc ? 1000000 - j : j; break;
+            default: v[j] = (int)rng.below(nv); break;
+            }
+        }
+        std::sort(v.begin(), v.end(), kless);
+    }
+    compute_boundary(sh, desc);
+
+    // ---- length
+    std::ptrdiff_t length = total;
+    switch (lenmode) {
+    case 0: length = total; break;
+    case 1: length = total - (std::ptrdiff_t)rng.below(std::min<long>(total, 40) + 1); break;
+    case 2: length = (std::ptrdiff_t)rng.below(total + 1); break;
+    case 3: length = 0; break;
+    case 4: length = std::min<std::ptrdiff_t>(1, total); break;
+    case 5: length = std::max<std::ptrdiff_t>(0, total - 1); break;
+    default: {
+        std::ptrdiff_t base = (lensel & 1) ? sh.ub_stable : sh.ub_unstable;
+        std::ptrdiff_t l = base + (lensel >> 1) - 1;
+        if (sh.ub_unstable < 0 || l < 0 || l > total) length = total - (std::ptrdiff_t)rng.below(total + 1);
+        else length = l;
+        break;
+    }
+    }
+    sh.length = length;
+    sh.prof = prof;
+    sh.keymode = keymode;
+}
+
+template <class E, bool RawPtr, bool Stable, class Cmp>
+void run_case(pbt::Source& src, const Cfg& cfg, Cmp cmp) {
+    using T = Tr<E>;
+    using It = typename ItKind<E, RawPtr>::It;
+    const bool stable = Stable, sent = entry_sentinels(cfg.entry), desc = cfg.desc;
+    auto kless = [desc](int a, int b) { return desc ? b < a : a < b; };
+
+    // ---- shape
+    Shape sh;
+    if (cfg.scale) gen_scale(src, cfg, sh);
+    else gen_base(src, cfg, sh);
+    const bool scale = cfg.scale;
+    const int k = sh.k;
+    const std::vector<int>& n = sh.n;
+    const std::vector<std::vector<int>>& keys = sh.keys;
+    const std::ptrdiff_t total = sh.total, length = sh.length;
+    const std::ptrdiff_t ub_unstable = sh.ub_unstable, ub_stable = sh.ub_stable;
+    const int sentvary = sh.sentvary, nvals = sh.nvals;
+    const bool omit_cmp = sh.omit_cmp, dominant = sh.dominant;
+    int kmax = 0, kmin = 0, maxseq = 0;
+    {
+        bool any = false;
+        for (int i = 0; i < k; ++i) {
+            maxseq = std::max(maxseq, n[i]);
+            for (int x : keys[i]) {
+                if (!any || x > kmax) kmax = x;
+                if (!any || x < kmin) kmin = x;
+                any = true;
+            }
+        }
     }
 
     // ---- build the inputs: one exact-size heap block per sequence (ASan red zone right behind it)
@@ -336,7 +555,17 @@ void run_case(pbt::Source& src, const Cfg& cfg, Cmp cmp) {
         std::sort(ks.begin(), ks.end());
         for (size_t i = 1; i < ks.size(); ++i) shared_key = shared_key || ks[i].first == ks[i - 1].first;
     }
-    pbt::label(k == 0 ? "k=0" : k == 1 ? "k=1" : k == 2 ? "k=2" : k == 3 ? "k=3" : k == 4 ? "k=4" : k <= 12 ? "k=5..12" : "k=13..40");
+    pbt::label(k == 0    ? "k=0"
+               : k == 1  ? "k=1"
+               : k == 2  ? "k=2"
+               : k == 3  ? "k=3"
+               : k == 4  ? "k=4"
+               : k <= 12 ? "k=5..12"
+               : k <= 40 ? "k=13..40"
+               : k <= 128 ? "k=41..128"
+               : k <= 300 ? "k=129..300"
+               : k <= 600 ? "k=301..600"
+                          : "k=601..1100");
     pbt::label(ALG_LABEL[cfg.alg]);
     pbt::label(stable ? "stable" : "unstable");
     pbt::label(sent ? "sentinels" : "no_sentinels");
@@ -351,23 +580,33 @@ void run_case(pbt::Source& src, const Cfg& cfg, Cmp cmp) {
     if (k >= 2 && n[0] == 0) pbt::label("empty_seq_first");
     if (k >= 2 && n[k - 1] == 0) pbt::label("empty_seq_last");
     for (int i = 1; i + 1 < k; ++i)
-        if (n[i] == 0) pbt::label("empty_seq_middle");
+        if (n[i] == 0) {
+            pbt::label("empty_seq_middle");
+            break;
+        }
     if (k >= 1 && nonempty == 0) pbt::label("all_seqs_empty");
     if (dominant && k > 0) pbt::label("dominant_seq");
-    if (nvals > 8) pbt::label("keys_wide");
-    else if (nvals == 1) pbt::label("keys_all_equal");
-    else pbt::label("keys_2..8_values");
+    if (!scale) {
+        if (nvals > 8) pbt::label("keys_wide");
+        else if (nvals == 1) pbt::label("keys_all_equal");
+        else pbt::label("keys_2..8_values");
+    }
     // which internal path the switch in multiway_merge_base takes
     const int eff_alg = cfg.alg == 0 ? 2 : (cfg.alg == 3 && !sent) ? 2 : cfg.alg;
+    std::ptrdiff_t ung_len = 0, ovh_len = 0; // sizes of the two phases of the combined algorithms
     if (k >= 3 && eff_alg == 2) {
         std::ptrdiff_t ub = (k <= 4 || stable) ? ub_stable : ub_unstable;
         if (ub < 0) pbt::label("combined:empty_seq_guarded_only");
         else {
             std::ptrdiff_t ung = std::min(length, ub);
+            ung_len = ung;
+            ovh_len = length - ung;
             if (ung > 0) pbt::label("unguarded_phase_nonempty");
             if (length - ung > 0) pbt::label("overhang_nonempty");
             if (ung > 0 && length - ung > 0) pbt::label("unguarded+overhang");
             if (length == ub) pbt::label("length=unguarded_boundary");
+            if (length == ub - 1) pbt::label("length=unguarded_boundary-1");
+            if (length == ub + 1) pbt::label("length=unguarded_boundary+1");
         }
     }
     if (k >= 5 && (eff_alg == 1 || eff_alg == 2 || eff_alg == 3)) {
@@ -378,16 +617,44 @@ void run_case(pbt::Source& src, const Cfg& cfg, Cmp cmp) {
     if ((k == 3 || k == 4) && eff_alg == 3) pbt::label("unguarded_3/4way_with_sentinels");
     if ((k == 3 || k == 4) && (eff_alg == 1 || eff_alg == 4)) pbt::label("guarded_3/4way");
     if (shared_key) pbt::label("key_in_2+_seqs");
+    if (scale) {
+        // the size dimensions
+        pbt::label(PROF_LABEL[sh.prof]);
+        pbt::label(KEYMODE_LABEL[sh.keymode]);
+        if (k >= 31 && ((k + 1) & k) == 0) pbt::label("k=2^j-1");
+        if (k >= 31 && (k & (k - 1)) == 0) pbt::label("k=2^j");
+        if (k >= 31 && ((k - 1) & (k - 2)) == 0) pbt::label("k=2^j+1");
+        if (nonempty > 16) pbt::label("nonempty_seqs>16");
+        if (nonempty > 256) pbt::label("nonempty_seqs>256");
+        pbt::label(total < 1000 ? "total<1000" : total < 10000 ? "total=1e3..1e4" : "total=1e4..1e5");
+        if (maxseq >= 1000) pbt::label("maxseq>=1000");
+        if (k <= 4 && total >= 1000) pbt::label("k<=4_total>=1000");
+        if (ung_len >= 1000) pbt::label("unguarded_phase>=1000");
+        if (ovh_len >= 1000) pbt::label("overhang>=1000");
+        if (length >= 1000) pbt::label("length>=1000");
+        if (k > 16 && eff_alg == 4) pbt::label("bubble_k>16");
+        if (k >= 64 && eff_alg == 4) pbt::label("bubble_k>=64");
+        if (k >= 64 && eff_alg != 4) pbt::label("tree_k>=64");
+        if (k >= 64 && eff_alg != 4 && length >= 4 * k) pbt::label("tree_k>=64_length>=4k");
+    }
     if (k >= 3 && nonempty >= 2 && shared_key && length > 0) pbt::nontrivial();
 
     if (pbt::verbose()) {
         PBT_LOG("tlx::" << ENTRY_NAME[cfg.entry] << " alg=" << ALG_NAME[cfg.alg] << " elem=" << T::name << " (" << sizeof(E)
                         << " bytes) cmp=" << (desc ? "greater" : "less") << (omit_cmp && cfg.alg == 0 && !desc && std::is_same<E, int>::value ? " [comparator and algorithm arguments omitted: std::less<int>]" : "")
                         << " k=" << k << " length=" << length << " of total=" << total << "\n");
+        if (scale)
+            PBT_LOG("  scale shape: " << PROF_LABEL[sh.prof] << " " << KEYMODE_LABEL[sh.keymode] << " non-empty sequences=" << nonempty
+                                      << " longest=" << maxseq << " unguarded boundary (unstable/stable)=" << ub_unstable << "/" << ub_stable
+                                      << "\n");
         for (int i = 0; i < k; ++i) {
+            if (scale && i >= 40 && i + 4 < k) {
+                if (i == 40) PBT_LOG("  ...\n");
+                continue;
+            }
             PBT_LOG("  seq[" << i << "] n=" << n[i] << " keys:");
-            for (int j = 0; j < n[i] && j < 64; ++j) PBT_LOG(" " << keys[i][j]);
-            if (n[i] > 64) PBT_LOG(" ...");
+            for (int j = 0; j < n[i] && j < (scale ? 24 : 64); ++j) PBT_LOG(" " << keys[i][j]);
+            if (n[i] > (scale ? 24 : 64)) PBT_LOG(" ... " << keys[i].back());
             if (sent) PBT_LOG(" | sentinel " << T::key(bufs[i][n[i]]));
             PBT_LOG("\n");
         }
@@ -400,11 +667,13 @@ void run_case(pbt::Source& src, const Cfg& cfg, Cmp cmp) {
     try {
         ret = call_merge<Stable>(cfg, omit_cmp, seqs.begin(), seqs.end(), target, length, cmp);
     } catch (const StepBound&) {
-        PBT_LOG("  comparison budget " << g_cmp_budget << " exhausted: merge does not terminate in reasonable time (inconclusive)\n");
         pbt::label("step_bound_hit");
-        pbt::inconclusive();
-        return;
+        PBT_CHECK(false, "C05/runaway-comparisons",
+                  "the merge made more than " << g_cmp_budget << " comparator calls (64*(total+k+1)*(k+1)+10000 with total=" << total
+                                              << ", k=" << k << ") without returning: it does not terminate / makes no progress");
     }
+
+    if (g_cmp_calls * 16 > g_cmp_budget) pbt::label("cmp_calls>budget/16"); // margin check of the work bound (expected: never)
 
     // ---- oracle
     PBT_CHECK(ret - target == length, "C05/return",
